@@ -16,6 +16,10 @@ CHECKS = {
    text="Registry.tla models one object's life through create/update/status-update with the L0 result operators; TLC checks 'generation = 1 + number of spec/annotation changes' and the separation clauses as invariants/action properties, enumerates every (kind, op, stored, submitted) case for replay into the REAL strategies (via rest.BeforeCreate/BeforeUpdate), and validates random op sequences executed on the real strategies as traces.",
    note="Strategies are called as the generic registry store calls them, not through a running apiserver; abstract field values concretised on pointer/slice/nested/plain fields.",
    technique="TLC state machine + exhaustive case table replayed into real strategies + TLC trace validation"),
+ "C05": dict(cat="model_checking", design="4/C05",
+   text="L1 (MifImpl.tla: golib atomic counter, one label per atomic access, behind the replaceable local wrapper) is model-checked against the L0 max-in-flight object through a subset-construction linearizability monitor (MifMon.tla) over every interleaving of the bounded scenario; TLC then generates all operation-level interleavings plus sampled fine-grained prefixes, which are replayed into the REAL limiter under a cooperative scheduler (sync/atomic imports substituted at build time), and every recorded call/return history (also from free-running goroutines) is validated by TLC with the same monitor.",
+   note="Bounds: 2-3 threads, <=2 rounds, <=2 reconfigurations in the exhaustive runs; refusals are only judged when the acquire ran alone; dispatcher exit paths are checked at HTTP level.",
+   technique="TLC linearizability monitor (L1=>L0) + TLC-generated schedules replayed under a controlled scheduler + TLC trace validation"),
 }
 
 NOT_YET = {}
